@@ -1,15 +1,17 @@
 #!/usr/bin/env bash
 # tools/with_patch.sh <patch.diff> <ID> [<ID>...]   apply a patch to /repo, run the quick checks, ALWAYS revert.
 # Prints one line per check: "<ID> exit=<rc> <first VIOLATION line, if any>". Used for sensitivity testing only.
+# VERIF_REPO / VERIF_HOME select a snapshot pair instead of /repo and /verif (used inside `vp run --with-repo`).
 set -u
+REPO="${VERIF_REPO:-/repo}"; HOME_V="${VERIF_HOME:-/verif}"
 patch="$(readlink -f "$1")"; shift
-cd /repo || exit 2
+cd "$REPO" || exit 2
 if [ -n "$(git status --porcelain --untracked-files=no)" ]; then echo "with_patch: /repo has local changes, refusing" >&2; exit 2; fi
 git apply --check "$patch" || { echo "with_patch: patch does not apply" >&2; exit 2; }
 git apply "$patch"
-trap 'cd /repo && git checkout -- . && git clean -fdq -- nutype nutype_macros test_suite examples 2>/dev/null' EXIT
+trap 'cd "$REPO" && git checkout -- . && git clean -fdq -- nutype nutype_macros test_suite examples 2>/dev/null' EXIT
 for id in "$@"; do
-  out="$(cd /verif && VERIF_KEEP_EVIDENCE=1 ./check "$id" --tier "${TIER:-quick}" 2>&1)"; rc=$?
+  out="$(cd "$HOME_V" && VERIF_KEEP_EVIDENCE=1 ./check "$id" --tier "${TIER:-quick}" 2>&1)"; rc=$?
   echo "$id exit=$rc $(echo "$out" | grep -m1 -E '^(VIOLATION|HARNESS-ERROR)' | cut -c1-400)"
   n=$(echo "$out" | grep -c '^VIOLATION')
   [ "$n" -gt 1 ] && echo "   ($n VIOLATION lines)"
